@@ -5,11 +5,14 @@
     MergeIntrospectionSchemas of federation/merge_schemas.go and federation/schema.go, and the
     validity of a query against an introspection schema).  [valid_query sok strict s q]:
     [strict = true] is the GraphQL rule, [strict = false] what graphql.PrepareQuery accepts
-    (compared with PrepareQuery on every run). *)
+    (compared with PrepareQuery on every run).  [fedkeys_ok per merged]: the federation-key verdict of
+    ConvertVersionedSchemas (validateFederationKeys, schema.go:42-76), compared with the implementation's
+    accept / "Invalid federation key" outcome on every run (component 4). *)
 From Coq Require Import List String Bool ZArith.
 From Thunder Require Import Lib.Json Federation.Merge Federation.MergeProofsBase Federation.MergeProofsTref
   Federation.MergeProofs Federation.MergeProofsValid Federation.MergeProofsMore Federation.MergeProofsComm
-  Federation.MergeProofsClosed.
+  Federation.MergeProofsClosed Federation.MergeProofsKeys.
+From Coq Require Import Permutation.
 Import ListNotations.
 Open Scope string_scope.
 
@@ -149,3 +152,31 @@ Example ex_nonvacuous :
   (exists m, merge_slice Intersection [ex_v1; ex_v2] = Some m /\ valid_query thunder_scalar_ok true m ex_q = true) /\
   valid_query thunder_scalar_ok true ex_v1 ex_q = true /\ valid_query thunder_scalar_ok true ex_v2 ex_q = true.
 Proof. vm_compute. repeat split; try reflexivity. eexists; split; reflexivity. Qed.
+
+(** Federation keys (ConvertVersionedSchemas / validateFederationKeys).  Acceptance means: every key field a
+    service asks for in Federation.<svc>_<Object>(keys:) is a field of the object on every service that is a root
+    for it (has <Object>._federation) -- so the hop from any root service can be planned with fields that service
+    exposes ... *)
+Theorem federation_keys_accepted_are_exposed :
+  forall per m,
+    fedkeys_ok per m = true ->
+    forall asker obj k, In asker per -> In (obj, k) (asked_keys m (snd asker)) ->
+    forall root t, In root per -> In t (snd root) -> t_name t = obj -> type_has_field t "_federation" = true ->
+      type_has_field t k = true.
+Proof. exact MergeProofsKeys.fedkeys_ok_sound. Qed.
+Print Assumptions federation_keys_accepted_are_exposed.
+
+(** ... refusal has a culprit (a root service that lacks an asked-for key field) ... *)
+Theorem federation_keys_refused_has_culprit :
+  forall per m,
+    fedkeys_ok per m = false ->
+    exists asker obj k root t, In asker per /\ In (obj, k) (asked_keys m (snd asker)) /\ In root per /\ In t (snd root) /\
+      t_name t = obj /\ type_has_field t "_federation" = true /\ type_has_field t k = false.
+Proof. exact MergeProofsKeys.fedkeys_refused_witness. Qed.
+Print Assumptions federation_keys_refused_has_culprit.
+
+(** ... and the verdict does not depend on how the services are named or in which order they are visited. *)
+Theorem federation_keys_verdict_independent_of_naming :
+  forall per per' m, Permutation (map snd per) (map snd per') -> fedkeys_ok per m = fedkeys_ok per' m.
+Proof. exact MergeProofsKeys.fedkeys_ok_naming. Qed.
+Print Assumptions federation_keys_verdict_independent_of_naming.
